@@ -14,7 +14,7 @@ from .world import seq_eq
 
 META = dict(assumptions=["reference encoders in props/refs.py (written from MS-GKDI 2.2 and the NDR64 transfer syntax) are the oracle; the pointer referent value 0x00020000 is a convention shared with the code"])
 P = "C11"
-NAMES = ["", "a", "domain.test", "dépôt.中文", "x\U0001F600y", "\ufeffab.test", "\ufffe", "a\ufeff"]  # incl. names that begin with / contain a byte-order mark
+NAMES = ["", "a", "domain.test", "dépôt.中文", "x\U0001F600y", "\ufeffab.test", "\ufffe", "a\ufeff", "a\u0100.test", "x\U00010000y", "\u0100"]  # incl. names that begin with / contain a byte-order mark
 U32 = (1 << 32) - 1
 
 
@@ -141,7 +141,7 @@ def getkey_response(c, n):
 
 
 @harness(P, per_job=True, params=lambda tier: [dict(n=n, pad=p) for n in (range(0, 8) if tier == "quick" else range(0, 18)) for p in ([None, 0, 4, 12, 15] if tier == "quick" else [None] + list(range(16)))],
-         bounds="_process_get_key_result on a decrypted Response whose stub is the NDR64 reply (envelope length residues 0..7 / 0..17) followed by `pad` zero octets, with a security "
+         bounds="_process_get_key_result on a decrypted Response whose stub is the NDR64 reply (envelope length residues 0..7 / 0..17) followed by `pad` symbolic octets, any alloc_hint, with a security "
          "trailer declaring pad_length = pad (0..15) or without a security trailer: the envelope is extracted unchanged", must_reach=("getkey result: declared auth padding stripped, envelope extracted",))
 def getkey_result(c, n, pad):
     from dpapi_ng import _client
@@ -153,8 +153,9 @@ def getkey_result(c, n, pad):
     env = refs.ref_group_key_envelope(ints["version"], ints["flags"], ints["l0"], ints["l1"], ints["l2"], rkb, "SP800_108_CTR_HMAC", b"P" * 30, "DH", b"", 512, 2048, "d.t", "f.t", b"", k2)
     reply = refs.ref_getkey_response(env, 0)
     tr = None if pad is None else _pdu.SecTrailer(_pdu.SecurityProvider.RPC_C_AUTHN_GSS_NEGOTIATE, _pdu.AuthenticationLevel.RPC_C_AUTHN_LEVEL_PKT_PRIVACY, pad, 0, b"\x00" * 16)
-    stub = refs.cat(reply, bytes(pad or 0))
-    resp = _request.Response(_pdu.PDUHeader(5, 0, _pdu.PacketType.RESPONSE, _pdu.PacketFlags(3), _pdu.DataRep(), 0, 16 if tr else 0, 1), tr, len(stub), 0, 0, stub)
+    stub = refs.cat(reply, c.bytes("auth_pad", pad or 0))  # the value of the padding octets is the sender's business (C706 does not prescribe it)
+    # alloc_hint is advisory: any value
+    resp = _request.Response(_pdu.PDUHeader(5, 0, _pdu.PacketType.RESPONSE, _pdu.PacketFlags(3), _pdu.DataRep(), 0, 16 if tr else 0, 1), tr, c.int("alloc_hint", 0, U32), 0, 0, stub)
     y = c.call(_client._process_get_key_result, resp)
     c.check(all_of([seq_eq(c.call(y.pack), env), struct_eq(y.l2_key, k2), y.l1 == ints["l1"]]), "getkey result: declared auth padding stripped, envelope extracted")
     return len(stub)
